@@ -407,3 +407,42 @@ def w_r7_indent(p: Project, rep: Report):
             continue
         rep.check("W-R7", f"indent:{attr}-store#{i}", bool(guard_ok and ws_ok and in_children),
                   f"store {text(st)} is guarded-by-blank={bool(guard_ok)}, whitespace-only={ws_ok}, only-for-elements-with-children={in_children}: element data can be altered by pretty-printing", uloc(p, st))
+
+
+def l_r4_list_elements(p: Project, rep: Report):
+    """members of an ElementList are written through their converter"""
+    from . import paths as PT
+    from .flat import flat
+
+    rep.rule("L-R4", "every member of an ElementList is written through the declared converter: on each path of ElementList._listAppend the text stored in the new element is <converter>.unconvert(<member>) - a member stored as it is (a str appended after construction) would skip the enumeration / length / digit checks that make the written value lexically valid")
+    BASE_ = "ofxtools.models.base"
+    ci = p.get_class(BASE_, "ElementList")
+    fn0 = ci.own_func("_listAppend")
+    if fn0 is None:
+        rep.note("L-R4 undecided: ElementList._listAppend not found")
+        return
+    fn = flat(p, BASE_, fn0, ci)
+    member = params_of(fn)[-1]
+    pths = PT.enumerate_paths(fn, None, Expander(fn), resolve=False)
+    cfg = pths.cfg
+    stores = [n for n in cfg.nodes if isinstance(n.stmt, ast.Assign) and n.kind == "assign" and isinstance(n.stmt.targets[0], ast.Attribute) and n.stmt.targets[0].attr == "text"]
+    if not stores:
+        rep.note("L-R4 undecided: _listAppend stores no element text")
+        return
+    bad = None
+    seen = 0
+    for n in stores:
+        for q in pths:
+            i = q.index_of(n.id)
+            if i is None:
+                continue
+            seen += 1
+            v = PT.value_on_path(q, cfg, n.stmt.value, upto=i)
+            ok = isinstance(v, ast.Call) and isinstance(v.func, ast.Attribute) and v.func.attr == "unconvert" and len(v.args) == 1 and text(v.args[0]) == member
+            if not ok:
+                if isinstance(v, ast.Name) and v.id == member or text(v) in (f"str({member})", member):
+                    bad = (text(v), PT.simple_conds(q.conds))
+                else:
+                    rep.note(f"L-R4 undecided: member text is {text(v)[:60]}")
+    if seen:
+        rep.check("L-R4", "ElementList._listAppend:text-through-converter", bad is None, f"on a path (taken when {bad[1]}) the member is written as `{bad[0]}` without passing the converter: an invalid value put into the list after construction is written instead of refused" if bad else "", f"{p.module(BASE_).relpath}:{fn0.lineno}")
